@@ -6,7 +6,7 @@
    explicit idealisation of the primitives, stated as hypotheses of the theorem.
    [wf_bytes b]: every element of b is < 256 (what a Go []byte can hold). *)
 From Verif Require Import Lib.Base Lib.Sx Model.Jose.
-From Verif Require Import Proofs.Jose Proofs.JoseCompact Proofs.JoseCipher Proofs.JoseWrap Proofs.JoseFixed Proofs.JoseIdeal.
+From Verif Require Import Proofs.Jose Proofs.JoseCompact Proofs.JoseCipher Proofs.JoseWrap Proofs.JoseWrapLoop Proofs.JoseFixed Proofs.JoseGlue Proofs.JoseIdeal.
 Open Scope N_scope.
 
 (* ---------------------------------------------------------------- base64url (encoding.go) *)
@@ -121,6 +121,22 @@ Proof.
   intros HD HE. split; [exact (key_unwrap_wrap E D HD HE)|exact (key_unwrap_bad_icv E D HD HE)].
 Qed.
 
+(* The model that is run against the code transcribes the Go loops as written -- one step per t,
+   block r[t%n] read and written in place (key_wrap_loop, key_unwrap_loop).  They ARE the six-pass
+   functions of c16_keywrap, for every block function, initial value and input; hence the same
+   round trip and ICV rejection hold for the loops. *)
+Theorem c16_keywrap_loop E D :
+  (forall iv cek, key_wrap_loop_iv E iv cek = key_wrap_iv E iv cek) /\
+  (forall ct, key_unwrap_loop D ct = key_unwrap D ct) /\
+  ((forall x, length x = 16%nat -> D (E x) = x) -> (forall x, length x = 16%nat -> length (E x) = 16%nat) ->
+   forall cek, lenN cek mod 8 = 0 -> 16 <= lenN cek ->
+     exists out, key_wrap_loop E cek = Ok out /\ key_unwrap_loop D out = Ok cek).
+Proof.
+  split; [exact (key_wrap_loop_eq E)|]. split; [exact (key_unwrap_loop_eq 24 D)|].
+  intros HD HE cek Hm Hl. destruct (key_unwrap_wrap E D HD HE cek Hm Hl) as (out & E1 & E2).
+  exists out. unfold key_wrap_loop, key_unwrap_loop. rewrite key_wrap_loop_eq, key_unwrap_loop_eq. auto.
+Qed.
+
 (* the ICV the code checks against is RFC 3394's A6A6A6A6A6A6A6A6 (regenerated from the source) *)
 Theorem c16_keywrap_icv : default_iv = [166; 166; 166; 166; 166; 166; 166; 166].
 Proof. reflexivity. Qed.
@@ -135,6 +151,58 @@ Theorem c16_fixed_width :
      exists out, fixed_size (be_bytes x) size = Ok out /\ lenN out = size /\ be_val out = x) /\
   (forall n, be_val (be_bytes n) = n).
 Proof. split; [exact ecdsa_sig_split|]. split; [exact coordinate_fixed|exact be_val_be_bytes]. Qed.
+
+(* ---------------------------------------------------------------- algorithm / key glue (signing.go, symmetric.go, asymmetric.go) *)
+(* SWEEP over 5 key kinds x the 12 algorithm names regenerated from shared.go: Sign accepts exactly
+   RFC 7518's pairs (HS* / byte key, RS* PS* / RSA key, ES256 ES384 ES512 / P-256 P-384 P-521) with
+   signature lengths 32 48 64 (HMAC) and 64 96 132 (ECDSA); an ES algorithm on another curve is
+   the curve error, everything else the unsupported-algorithm error; unknown names are rejected *)
+Theorem c16_glue_sign_table :
+  map fst sigalg_names =
+    [[72; 83; 50; 53; 54]; [72; 83; 51; 56; 52]; [72; 83; 53; 49; 50];
+     [82; 83; 50; 53; 54]; [82; 83; 51; 56; 52]; [82; 83; 53; 49; 50];
+     [80; 83; 50; 53; 54]; [80; 83; 51; 56; 52]; [80; 83; 53; 49; 50];
+     [69; 83; 50; 53; 54]; [69; 83; 51; 56; 52]; [69; 83; 53; 49; 50]] /\
+  flat_map (fun k => flat_map (fun n => match sign_decide k n with
+                                        | Ok len => [(kind_code k, n, len)] | _ => [] end) all_names) all_kinds =
+    [(0, [72; 83; 50; 53; 54], 32); (0, [72; 83; 51; 56; 52], 48); (0, [72; 83; 53; 49; 50], 64);
+     (1, [82; 83; 50; 53; 54], 0); (1, [82; 83; 51; 56; 52], 0); (1, [82; 83; 53; 49; 50], 0);
+     (1, [80; 83; 50; 53; 54], 0); (1, [80; 83; 51; 56; 52], 0); (1, [80; 83; 53; 49; 50], 0);
+     (256, [69; 83; 50; 53; 54], 64); (384, [69; 83; 51; 56; 52], 96); (521, [69; 83; 53; 49; 50], 132)] /\
+  (forall k name sl, sigalg_of_name name = None ->
+     sign_decide k name = Err e_alg /\ verify_decide k name sl = Err e_alg).
+Proof. split; [exact sigalg_names_rfc7518|]. split; [exact sign_table|exact sigalg_unknown]. Qed.
+
+(* fixed width in sign AND verify: on an EC key Sign takes only the algorithm of that curve and
+   emits 2*keyBytes bytes; Verify accepts exactly 2*keySize bytes (longer and shorter rejected);
+   keySize of the algorithm = keyBytes of its curve, so what Sign emits passes Verify's glue and
+   splits back into r and s; and the split succeeds on no other length *)
+Theorem c16_glue_ecdsa :
+  (forall bits name n, sign_decide (KEc bits) name = Ok n ->
+     exists a, sigalg_of_name name = Some a /\ es_bits a = Some bits /\ n = 2 * ec_key_bytes bits) /\
+  (forall bits name sl, verify_decide (KEc bits) name sl = Ok tt <->
+     exists a ks, sigalg_of_name name = Some a /\ es_keysize a = Some ks /\ sl = 2 * ks) /\
+  (forall a bits, es_bits a = Some bits -> es_keysize a = Some (ec_key_bytes bits)) /\
+  (forall a bits ks r s, es_bits a = Some bits -> es_keysize a = Some ks -> r < 256 ^ ks -> s < 256 ^ ks ->
+     exists sig, ecdsa_sig r s (ec_key_bytes bits) = Ok sig /\ lenN sig = 2 * ks /\ ecdsa_split sig ks = Ok (r, s)) /\
+  (forall sig ks, (exists rs, ecdsa_split sig ks = Ok rs) <-> lenN sig = 2 * ks).
+Proof.
+  split; [exact sign_ec_spec|]. split; [exact verify_ec_spec|]. split; [exact es_consistency|].
+  split; [exact es_sign_verify_width|exact ecdsa_split_ok_iff].
+Qed.
+
+(* whatever Sign's glue accepts, Verify's glue accepts for the same kind of key (for ECDSA: at
+   exactly the emitted length) *)
+Theorem c16_glue_sign_then_verify k name n :
+  sign_decide k name = Ok n ->
+  match k with KEc _ => verify_decide k name n = Ok tt | _ => forall sl, verify_decide k name sl = Ok tt end.
+Proof. exact (sign_then_verify k name n). Qed.
+
+(* observation, as the code is: the EC verifier checks the signature length against the
+   algorithm, not the curve of the key it was given *)
+Theorem c16_glue_verify_ignores_curve :
+  verify_decide (KEc 256) (bytes_of_string Gen.Gen_jose.jose_ES384_str) 96 = Ok tt.
+Proof. exact verify_ignores_curve. Qed.
 
 (* RFC 7638 member order and punctuation: e, kty, n and crv, kty, x, y with fixed-width x, y *)
 Theorem c16_thumbprint_template :
@@ -194,8 +262,8 @@ Proof. exact (jws_other_key verify_other). Qed.
    content key exactly the produced (IV, ciphertext||tag, AAD) opens (to the plaintext); the
    primitives do not panic on a nonce of the right size.  Then encrypt -> CompactSerialize ->
    ParseEncrypted -> Decrypt returns the plaintext; any change of protected header, encrypted
-   key, IV, AAD or of ciphertext||tag gives an error, never a panic.  (Modes with an empty
-   encrypted key -- dir, ECDH-ES -- have nothing to unwrap and are outside these two theorems.) *)
+   key, IV, AAD or of ciphertext||tag gives an error, never a panic.  (For dir and ECDH-ES the
+   unwrap step is c16_direct_key_management: the encrypted key must be empty.) *)
 Theorem c16_roundtrip_sym_jwe unwrapk open ns prot ek iv ct tag aad cek plaintext :
   wf_jwe {| je_prot := prot; je_key := ek; je_iv := iv; je_ct := ct; je_tag := tag |} ->
   prot <> [] -> lenN iv = ns ->
@@ -224,6 +292,13 @@ Proof.
   - exact (jwe_tamper unwrapk open ns prot ek iv ct tag aad cek plaintext W U UT O OT WA).
   - exact (jwe_tamper_fields unwrapk open ns prot ek iv ct tag aad cek plaintext W U UT O OT WA).
 Qed.
+
+(* dir and ECDH-ES (fix 0437f8a): the key-management step is "the encrypted key must be empty";
+   it satisfies the unwrap idealisation outright, so c16_roundtrip_sym_jwe / c16_tamper_sym_jwe
+   apply to those modes with ek = [] -- in particular ADDING an encrypted key is rejected *)
+Theorem c16_direct_key_management cek :
+  (forall k c, unwrap_direct cek k = Ok c <-> k = [] /\ c = cek) /\ (forall k s, unwrap_direct cek k <> Panic s).
+Proof. split; [exact (unwrap_direct_ideal cek)|exact (unwrap_direct_total cek)]. Qed.
 
 (* The CBC-HMAC AEAD itself, built on an idealised MAC only (the only valid (message, tag) pair
    under the MAC key is the produced one): Open succeeds only on the produced AAD, IV,
@@ -327,7 +402,13 @@ Print Assumptions c16_mac_input_injective.
 Print Assumptions c16_pkcs7.
 Print Assumptions c16_cbc_seal_open.
 Print Assumptions c16_keywrap.
+Print Assumptions c16_keywrap_loop.
 Print Assumptions c16_keywrap_icv.
+Print Assumptions c16_glue_sign_table.
+Print Assumptions c16_glue_ecdsa.
+Print Assumptions c16_glue_sign_then_verify.
+Print Assumptions c16_glue_verify_ignores_curve.
+Print Assumptions c16_direct_key_management.
 Print Assumptions c16_fixed_width.
 Print Assumptions c16_thumbprint_template.
 Print Assumptions c16_kdf_layout.
